@@ -447,7 +447,25 @@ fn concurrent_creation_history(rng: &mut Rng, rep: &Report) -> Option<u64> {
         rep.violation("appended-while-owner-alive", witness("appended before the owner was dropped", json!({})));
         return None;
     }
+    // a force-flush guard created AFTER the concurrently created flush guards must override all of them
+    let post_force = if !race_force && rng.bool() { Some(owner.force_flush_guard()) } else { None };
+    let had_post_force = post_force.is_some();
     drop(owner);
+    if let Some(f) = post_force {
+        if sink.count() != 0 {
+            rep.violation("appended-while-flush-guard-alive", witness("appended when the owner was dropped although flush guards and an undropped force-flush guard exist", json!({})));
+            return None;
+        }
+        drop(f);
+        if sink.count() != 1 {
+            rep.violation(
+                "not-appended-when-due",
+                witness("owner dropped, then a force-flush guard (created after the flush guards) dropped: the entry must be appended now, whatever flush guards are alive", json!({"observed": sink.count(), "flush_guards_alive": guards.len()})),
+            );
+            return None;
+        }
+    }
+    let race_force = race_force || had_post_force;
     let expect_after_owner = race_force as usize;
     if sink.count() != expect_after_owner {
         rep.violation(
@@ -478,6 +496,101 @@ fn concurrent_creation_history(rng: &mut Rng, rep: &Report) -> Option<u64> {
 
 /// payload of the panics this harness raises on purpose (silenced in the panic hook)
 struct IntentionalPanic;
+
+/// a sink whose append panics while `armed` (user code failing inside an entry's final drop)
+#[derive(Clone)]
+struct PanickySink {
+    inner: CountingSink,
+    armed: Arc<std::sync::atomic::AtomicBool>,
+}
+impl<E: metrique_writer::Entry + Send + 'static> metrique_writer::EntrySink<E> for PanickySink {
+    fn append(&self, entry: E) {
+        if self.armed.swap(false, std::sync::atomic::Ordering::SeqCst) {
+            std::panic::panic_any(IntentionalPanic);
+        }
+        metrique_writer::EntrySink::append(&self.inner, entry)
+    }
+    fn flush_async(&self) -> metrique_writer::sink::FlushWait {
+        metrique_writer::sink::FlushWait::ready()
+    }
+}
+
+/// One entry's final drop panics inside the sink (caught); entries finished on the SAME thread
+/// afterwards - by owner drop, by the last flush guard, by a force-flush guard - must be appended
+/// exactly once, at the right moment, as if nothing had happened.
+fn after_caught_panic_history(rng: &mut Rng, rep: &Report) -> Option<u64> {
+    let sink = PanickySink { inner: CountingSink::new(), armed: Default::default() };
+    let how = rng.below(3);
+    // the faulting entry
+    {
+        let owner = Work { a: 1, b: 2 }.append_on_drop(sink.clone());
+        let g = if how == 1 { Some(owner.flush_guard()) } else { None };
+        let f = if how == 2 { Some((owner.flush_guard(), owner.force_flush_guard())) } else { None };
+        sink.armed.store(true, std::sync::atomic::Ordering::SeqCst);
+        let r = std::panic::catch_unwind(std::panic::AssertUnwindSafe(move || {
+            drop(owner);
+            drop(g);
+            if let Some((keep, force)) = f {
+                drop(force);
+                drop(keep);
+            }
+        }));
+        if r.is_ok() {
+            rep.inconclusive("the scripted sink panic did not happen (harness error)");
+            return None;
+        }
+    }
+    let base = sink.inner.count();
+    let finished_by = ["owner drop", "last flush guard", "force-flush guard"][how as usize];
+    let witness = |what: &str, step: &str, observed: usize, expected: usize| json!({"what": what, "faulting_entry_finished_by": finished_by, "step": step, "appends_observed": observed, "appends_expected": expected});
+    let what = "an earlier entry's sink.append() panicked on this thread during its final drop (the panic was caught); later entries on the same thread must behave as always";
+    let mut expected = base;
+    for k in 0..3 {
+        let tok = rng.below(1 << 40) + 10;
+        let mut owner = Work { a: 1, b: 2 }.append_on_drop(sink.clone());
+        owner.a = tok;
+        owner.b = tok + 1;
+        match k {
+            0 => {
+                drop(owner);
+                expected += 1;
+            }
+            1 => {
+                let g = owner.flush_guard();
+                drop(owner);
+                if sink.inner.count() != expected {
+                    rep.violation("appended-while-flush-guard-alive", witness(what, "owner dropped, flush guard alive", sink.inner.count(), expected));
+                    return None;
+                }
+                drop(g);
+                expected += 1;
+            }
+            _ => {
+                let g = owner.flush_guard();
+                let f = owner.force_flush_guard();
+                drop(owner);
+                drop(f);
+                expected += 1;
+                if sink.inner.count() != expected {
+                    rep.violation("not-appended-when-due", witness(what, "owner and force-flush guard dropped", sink.inner.count(), expected));
+                    return None;
+                }
+                drop(g);
+            }
+        }
+        if sink.inner.count() != expected {
+            rep.violation(if sink.inner.count() < expected { "not-appended-when-due" } else { "appended-twice" }, witness(what, ["owner dropped", "last flush guard dropped", "flush guard dropped after the force flush"][k], sink.inner.count(), expected));
+            return None;
+        }
+        let last = sink.inner.snapshot().last().map(|a| (a.u64_field("a"), a.u64_field("b")));
+        if last != Some((Some(tok), Some(tok + 1))) {
+            rep.violation("appended-entry-misses-owner-mutation", witness(what, "content of the appended entry", sink.inner.count(), expected));
+            return None;
+        }
+    }
+    rep.count("after_caught_panic_histories", 1);
+    Some(Fnv::new().str("after-panic").u64(how).finish() | 1)
+}
 
 fn main() {
     let args = Args::parse();
@@ -569,6 +682,12 @@ fn main() {
                     let mut rng = Rng::derive(args.seed, lane);
                     while start.elapsed() < budget && rep.violation_count() == 0 {
                         rep.eval();
+                        if rng.below(50) == 0 {
+                            if let Some(sig) = after_caught_panic_history(&mut rng, rep) {
+                                rep.distinct(sig);
+                            }
+                            continue;
+                        }
                         if rng.below(3) == 0 {
                             if let Some(sig) = concurrent_creation_history(&mut rng, rep) {
                                 rep.distinct(sig);
